@@ -57,6 +57,12 @@
     {"constant-calls-two-arguments", "function h(a,b) return a*b-a; end variables x; constraints (h(2,3)-h(4,1))*x>=h(1,1)+h(3,5); end", "variables x; constraints (4-0)*x>=0+12; end"},
     {"constant-calls-nested-and-vector", "function g(a) return 2*a+1; end function v(a) return (a;a+1); end variables x[2]; constraints x-(v(1)+v(4))=(g(g(1))-g(0);g(2)-g(3)); end", "variables x[2]; constraints x-((1;2)+(4;5))=(7-1;5-7); end"},
     {"constant-calls-in-loop", "function g(a) return a*a; end variables x[3]; constraints for i=1:3; x(i)+g(i)-g(i+1)>=g(2)-g(1); end end", "variables x[3]; constraints x(1)+1-4>=3; x(2)+4-9>=3; x(3)+9-16>=3; end"},
+    {"range-growing-with-iterator", "variables x[3]; constraints for i=1:3; x(1:i)'*x(1:i)=i; end end", "variables x[3]; constraints x(1)*x(1)=1; x(1:2)'*x(1:2)=2; x(1:3)'*x(1:3)=3; end"},
+    {"range-shrinking-with-iterator", "variables x[3]; constraints for i=1:3; x(i:3)'*x(i:3)>=i; end end", "variables x[3]; constraints x(1:3)'*x(1:3)>=1; x(2:3)'*x(2:3)>=2; x(3)*x(3)>=3; end"},
+    {"range-degenerate-in-the-middle", "variables x[4]; constraints for i=1:3; x(2:i+1)'*x(2:i+1)<=i; end end", "variables x[4]; constraints x(2)*x(2)<=1; x(2:3)'*x(2:3)<=2; x(2:4)'*x(2:4)<=3; end"},
+    {"matrix-row-range-with-iterator", "variables M[3][3]; constraints for i=1:3; M(i,1:i)*M(i,1:i)'=i; end end", "variables M[3][3]; constraints M(1,1)*M(1,1)=1; M(2,1:2)*M(2,1:2)'=2; M(3,1:3)*M(3,1:3)'=3; end"},
+    {"sum-with-range-on-iterator", "function f(x[3]) return sum(i=1:3, x(1:i)'*x(1:i)); end variables x[3]; constraints f(x)=20; end", "variables x[3]; constraints x(1)*x(1)+x(1:2)'*x(1:2)+x(1:3)'*x(1:3)=20; end"},
+    {"nested-loops-range-on-both-iterators", "variables x[3]; constraints for i=1:2; for j=i:3; x(i:j)'*x(i:j)>=i+j; end end end", "variables x[3]; constraints x(1)*x(1)>=2; x(1:2)'*x(1:2)>=3; x(1:3)'*x(1:3)>=4; x(2)*x(2)>=4; x(2:3)'*x(2:3)>=5; end"},
     {"optional-semicolons", "variables x,y; minimize x constraints x>=0; for i=1:2; y>=i end y<=3 end", NULL},
     {"empty-constraints", "variables x; minimize x; constraints end", NULL},
     {"c-style-index", "variables x[3],M[2][3]; constraints x[0]+M[1][2]=M(2,3)+x(1); M[1]*x>=0; end", NULL},
@@ -144,6 +150,29 @@
                                                                      return to_string(s.nb_var) + "\n" + d + "\n" + guarded([&]() { System s2(fn2.c_str(), 0); return sys_dump(s2); }); }); wr(fd, res + "\n"); }, 4);
       vector<string> rr = records(c, 3);
       if (rr[0].compare(0, 7, "parsed ") == 0) { int nv = atoi(rr[0].c_str() + 7); string pts = points(r, nv); EMIT("mbxsys flat corner-rt:%s %s %s => %s\n", tc.kind, rr[1].c_str(), pts.c_str(), rr[2].c_str()); }
+    }
+  }
+  // ---- mutable constants ("*c = v"): ONE object of the loaded system; after the value is changed through System::constant(name)
+  //      the whole system (constraints AND the functions that use the constant) must denote the text written with the new value
+  {
+    struct MC { const char* kind; const char* text; const char* name; double val; const char* after; };
+    static const MC mcs[] = {
+      {"mutable-constant-in-function", "constants *c=2; d=5; function g(y) return c*y+d; end variables x; constraints g(x)=0; c*x=1; g(x)-c*x=d; end", "c", 4.0,
+                                       "constants c=4; d=5; function g(y) return c*y+d; end variables x; constraints g(x)=0; c*x=1; g(x)-c*x=d; end"},
+      {"mutable-constant-in-nested-functions", "constants *c=2; function h(z) return z+c; end function g(y) return h(y)*c; end variables x; minimize g(x)+c; constraints h(g(x))>=c; end", "c", -1.5,
+                                       "constants c=-1.5; function h(z) return z+c; end function g(y) return h(y)*c; end variables x; minimize g(x)+c; constraints h(g(x))>=c; end"},
+      {"mutable-constant-in-constraints-only", "constants *c=1; variables x,y; constraints x+c*y=c; x-y<=c^2; end", "c", 3.0, "constants c=3; variables x,y; constraints x+c*y=c; x-y<=c^2; end"},
+      {"mutable-constant-in-loop-and-function", "constants *c=2; function g(y) return y^2-c; end variables x[2]; constraints for i=1:2; g(x(i))+c*i>=0; end end", "c", 0.5,
+                                       "constants c=0.5; function g(y) return y^2-c; end variables x[2]; constraints for i=1:2; g(x(i))+c*i>=0; end end"},
+    };
+    for (const MC& mc : mcs) {
+      string fa = scratch(".mbx"), fb = scratch(".mbx"); spit(fa, mc.text); spit(fb, mc.after);
+      Child c = isolated([&](int fd) { wr(fd, parse_system_file(fb, 0) + "\n");
+                                       wr(fd, guarded([&]() { System s(fa.c_str(), 0); s.constant(mc.name).i() = Interval(mc.val); return sys_dump(s); }) + "\n"); }, 4);
+      vector<string> rr = records(c, 2);
+      if (rr[0].compare(0, 7, "parsed ") == 0) { mbx::RefResult P = mbx::read_system(mc.after); string pts = points(r, P.t == mbx::RefResult::ACCEPT ? P.m.nvar() : 3);
+        EMIT("mbxsys strict pair:%s %s %s => %s\n", mc.kind, rr[0].substr(7).c_str(), pts.c_str(), rr[1].c_str()); }
+      else EMIT("mbxmut pair-paren:%s accept - - - - - - - => %s\n", mc.kind, rr[0].c_str());
     }
   }
 }
